@@ -26,13 +26,13 @@ def spec(tier, seed):
     if tier == "quick":
         for sh, f, d in sym[:2]:
             inst.append(S("c03", 3, sh, [None, None], f, d, ["recon"], "C03 two hunks, symbolic stated lines", mem_gb=12, timeout=1500))
-        for (n, sh, ls, f, d) in rotate(conc, seed, 10):
-            inst.append(S("c03", n, sh, ls, f, d, ["recon"], "C03 two hunks, stated lines from the matrix", mem_gb=6))
+        for (n, sh, ls, f, d) in rotate(conc, seed, 8):
+            inst.append(S("c03", n, sh, ls, f, d, ["recon"], "C03 two hunks, stated lines from the matrix", mem_gb=9))
     else:
         for sh, f, d in sym:
             inst.append(S("c03", 3, sh, [None, None], f, d, ["recon"], "C03 two hunks, symbolic stated lines", mem_gb=12, timeout=2400))
         for (n, sh, ls, f, d) in conc:
-            inst.append(S("c03", n, sh, ls, f, d, ["recon"], "C03 two hunks, stated lines from the matrix", mem_gb=6))
+            inst.append(S("c03", n, sh, ls, f, d, ["recon"], "C03 two hunks, stated lines from the matrix", mem_gb=9))
     return {
         "instances": inst,
         "level": "model_checking",
